@@ -40,7 +40,7 @@ let () =
       else begin
         (* a source that returns its last bytes together with the error delivers the same bytes and error *)
         let tail = (match tail with "eofdata" -> "eof" | "faildata" -> "fail" | t -> t) in
-        let s = { chunks = chunk_by (sizes_of_spec spec (List.length p)) p; tl = (if tail = "fail" then TFail else TEOF) } in
+        let s = { chunks = (match chunks_of_spec spec p with Some cs -> cs | None -> chunk_by (sizes_of_spec spec (List.length p)) p); tl = (if tail = "fail" then TFail else TEOF) } in
         let bl = List.map n_of_int (ints_spec bufs) in
         let (mo, me) = cr_drive (nat_of_int (List.length p + 2)) bl bl { cr_src = s; cr_key = key; cr_pos = BinNums.N0 } [] in
         if mo <> out || me <> Some (if tail = "fail" then EFail else EEOF) then Diff "model cipher reader differs"
@@ -66,6 +66,19 @@ let () =
       if bytes_of_hex got <> mask_spec p key BinNums.N0 then
         Viol "CipherWriter over a destination that accepts a write partially: resumed stream is not the one-shot mask"
       else Pass (List.length p >= 2)
+    | _ -> Diff "malformed line");
+  register "C02RC" (fun i o -> match i, o with
+    | [p; key; _; tail], [out; err] ->
+      let p = bytes_of_hex p and key = bytes_of_hex key in
+      let want = mask_spec p key BinNums.N0 in
+      if bytes_of_hex out <> want then Viol "mask reader drained by io.Copy does not deliver payload[i] XOR key[i mod 4]"
+      else if (tail = "fail" || tail = "faildata") <> (err = "fail") || (err <> "fail" && err <> "ok") then Viol "mask reader drained by io.Copy misreports the source's error"
+      else Pass (p <> [])
+    | _ -> Diff "malformed line");
+  register "C02G" (fun i o -> match i, o with
+    | [_; _], [out] ->
+      if out = "ok" then Pass true
+      else Viol ("mask reader on a payload beyond 2^31 bytes: " ^ out)
     | _ -> Diff "malformed line");
   register "C02F" (fun i o -> match i with
     | name :: rest ->
